@@ -34,7 +34,7 @@ WH(e, j, w, prev) ==
             THEN Fail(st.outcome # "ValueError", "C20.outcome." \o op.k) \cup
                  Fail(st.outcome = "ValueError" /\ ~st.frame, "C20.frame." \o op.k) \cup
                  (IF st.outcome = "ValueError" /\ st.frame THEN WH(e, j + 1, w, prev) ELSE {})
-            ELSE IF st.outcome # "ok" THEN {"C09.valid_operation_failed." \o op.k}
+            ELSE IF st.outcome # "ok" THEN {"impl.valid_operation_failed." \o op.k}
             ELSE LET w2 == Apply(w, op)
                      cl == StepClauses(st, prev, w, w2, op)
                  IN \* once the recorded state differs from the specification's (drift, e.g. a bound that coincides with a
